@@ -19,7 +19,7 @@ run() {
     (cd "$H" && CARGO_NET_OFFLINE=true cargo build --release --offline --manifest-path "$WT/duckscript_cli/Cargo.toml" --target-dir "$H/target-cli" >/dev/null 2>&1)
   fi
   rm -f "/verif/work/mutall-$P.json"
-  (cd /verif && VERIF_DUCK="$H/target-cli/release/duck" timeout 900 "$H/target/release/harness" check "$P" quick 1 /verif/lean/.lake/build/bin/driver "/verif/work/mutall-$P.json" >/dev/null 2>&1)
+  (cd /verif && VERIF_DUCK="$H/target-cli/release/duck" timeout 900 "$H/target/release/harness" check "$P" quick 1 ${VERIF_DRIVER:-/verif/lean/.lake/build/bin/driver} "/verif/work/mutall-$P.json" >/dev/null 2>&1)
   python3 - "$P" <<'PY'
 import json,sys
 try:
